@@ -9,26 +9,37 @@ wt = f"/tmp/seedcheck-{prop}-{tag}"
 def sh(cmd, cwd=None, env=None):
     r = subprocess.run(cmd, shell=True, cwd=cwd, env=env, stdout=subprocess.PIPE, stderr=subprocess.STDOUT, text=True)
     return r.returncode, r.stdout
-subprocess.run(f"git -C /repo worktree remove --force {wt}", shell=True, stderr=subprocess.DEVNULL)
-assert sh(f"git -C /repo worktree add -q {wt} HEAD")[0] == 0
-ran = []
-try:
-    rc0, out0 = sh(f"/venv/bin/python {src}/demo.py", cwd=wt)
-    ran.append(f"demo on clean tree: exit {rc0}")
-    ap, apo = sh(f"git apply {src}/patch.diff", cwd=wt)
-    if ap != 0:
-        print("PATCH DOES NOT APPLY", apo); sys.exit(1)
-    rc1, out1 = sh(f"/venv/bin/python {src}/demo.py", cwd=wt)
-    ran.append(f"demo with patch: exit {rc1}")
-    env = dict(os.environ, VERIF_REPO=wt)
-    rcb, outb = sh("/verif/harness/baseline.py", env=env)
-    ran.append("baseline with patch: " + outb.strip().split("\n")[0])
-finally:
-    sh(f"git -C /repo worktree remove --force {wt}")
-ok = rc0 == 0 and rc1 != 0 and rcb == 0
-print("\n".join(ran)); print("CONFIRMED" if ok else "NOT CONFIRMED")
-if not ok:
-    print(out0[-500:], out1[-500:], outb[-500:]); sys.exit(1)
+phase = os.environ.get("SEED_PHASE", "all")       # validate (parallelisable, scratch worktree only) | check (serial, patches /repo) | all
+stamp = f"{src}/validated.json"
+if phase == "check" and os.path.exists(stamp):
+    ran = json.load(open(stamp))["ran"]
+    ok = True
+else:
+    ok = None
+subprocess.run(f"git -C /repo worktree remove --force {wt}", shell=True, stderr=subprocess.DEVNULL) if ok is None else None
+if ok is None:
+  assert sh(f"git -C /repo worktree add -q --detach {wt} HEAD")[0] == 0
+  ran = []
+  try:
+      rc0, out0 = sh(f"/venv/bin/python {src}/demo.py", cwd=wt)
+      ran.append(f"demo on clean tree: exit {rc0}")
+      ap, apo = sh(f"git apply {src}/patch.diff", cwd=wt)
+      if ap != 0:
+          print("PATCH DOES NOT APPLY", apo); sys.exit(1)
+      rc1, out1 = sh(f"/venv/bin/python {src}/demo.py", cwd=wt)
+      ran.append(f"demo with patch: exit {rc1}")
+      env = dict(os.environ, VERIF_REPO=wt)
+      rcb, outb = sh("/verif/harness/baseline.py", env=env)
+      ran.append("baseline with patch: " + outb.strip().split("\n")[0])
+  finally:
+      sh(f"git -C /repo worktree remove --force {wt}")
+  ok = rc0 == 0 and rc1 != 0 and rcb == 0
+  print("\n".join(ran)); print("CONFIRMED" if ok else "NOT CONFIRMED")
+  if not ok:
+      print(out0[-500:], out1[-500:], outb[-500:]); sys.exit(1)
+  json.dump({"ran": ran}, open(stamp, "w"))
+if phase == "validate":
+    sys.exit(0)
 # run the registered check against the patched /repo
 assert sh("git diff --quiet", cwd="/repo")[0] == 0, "/repo dirty"
 sh(f"git apply {src}/patch.diff", cwd="/repo")
